@@ -5,6 +5,7 @@
 import Snmp.Lemmas.UsmLemmas
 import Snmp.Lemmas.RawDigestLemmas
 import Snmp.Lemmas.V3GlueLemmas
+import Snmp.Lemmas.SpecRaw
 namespace Snmp.Props.C10
 open Snmp Snmp.Usm Snmp.Ber
 
@@ -364,5 +365,64 @@ example :
       RawTlv.bytes, RawTlv.ok, V3Glue.tStr, V3Glue.tInt, V3Glue.tSeq, Spec.tlv, specLength, lookup, Gen.registry, clsName,
       natureName, Gen.noDefaultCtor]
   · simp [V3Glue.ParamForms.ok, LenForm.ok]
+
+/-- The RFC reading of the same datagram: the strict specification reader (`Spec.readV3Msg`, written
+    from RFC 3412 / 3414 independently of the x690 mirror) extracts from every well-formed message —
+    version 3, one flags octet, non-empty integers, any length forms — exactly the ten header / USM
+    fields that `C10_fields_from_wire` shows the library's glue to extract, and msgData as it
+    travels.  Library reading and RFC reading of a well-formed SNMPv3 message coincide. -/
+theorem C10_spec_reads_wire (G : V3Glue.MsgForms) (F : V3Glue.ParamForms) (h : V3Glue.HdrC) (p : UsmParams.Params)
+    (boots time : Bytes) (pl : RawTlv) (fl : Nat)
+    (hok : G.ok F h p boots time pl) (hF : F.ok p boots time)
+    (hb : p.boots = intDecode true boots) (ht : p.time = intDecode true time)
+    (hver : h.ver ≠ [] ∧ intDecode true h.ver = 3) (hflg : h.flg = [fl])
+    (hne : h.mid ≠ [] ∧ h.mms ≠ [] ∧ h.mdl ≠ [] ∧ boots ≠ [] ∧ time ≠ []) :
+    Spec.readV3Msg (V3Glue.v3wire G F h p boots time pl []) =
+      some ⟨intDecode true h.mid, intDecode true h.mms, fl, intDecode true h.mdl,
+            p.engineId, p.boots, p.time, p.user, p.auth, p.priv, pl.t, pl.c⟩ := by
+  obtain ⟨h0, hv, hh, hm, hs, hl, ho, hsp, hsi, hpl⟩ := hok
+  obtain ⟨he, hbo, hti, hu, ha, hp⟩ := hF
+  obtain ⟨n1, n2, n3, n4, n5⟩ := hne
+  unfold Spec.readV3Msg
+  have e0 : V3Glue.v3wire G F h p boots time pl [] = Spec.tlv G.f0 48 (rawBytes (V3Glue.msgItems G F h p boots time pl)) ++ [] := rfl
+  rw [e0, Spec.readTLV_spec G.f0 48 _ [] h0]
+  simp only
+  have hI : ∀ x ∈ V3Glue.msgItems G F h p boots time pl, x.f.ok x.c.length := by
+    intro y hy
+    simp only [V3Glue.msgItems, List.mem_cons, List.not_mem_nil, or_false] at hy
+    rcases hy with rfl | rfl | rfl | rfl
+    · exact hv
+    · exact hh
+    · exact hsp
+    · exact hpl.1
+  rw [Spec.readSeq_raw _ hI]
+  simp only [V3Glue.msgItems, List.map_cons, List.map_nil, V3Glue.tInt, V3Glue.tSeq, V3Glue.tStr]
+  have hH : ∀ x ∈ V3Glue.hdrItems G h, x.f.ok x.c.length := by
+    intro y hy
+    simp only [V3Glue.hdrItems, List.mem_cons, List.not_mem_nil, or_false] at hy
+    rcases hy with rfl | rfl | rfl | rfl
+    · exact hm
+    · exact hs
+    · exact hl
+    · exact ho
+  have hP : ∀ x ∈ V3Glue.paramItems F p boots time, x.f.ok x.c.length := by
+    intro y hy
+    simp only [V3Glue.paramItems, List.mem_cons, List.not_mem_nil, or_false] at hy
+    rcases hy with rfl | rfl | rfl | rfl | rfl | rfl
+    · exact he
+    · exact hbo
+    · exact hti
+    · exact hu
+    · exact ha
+    · exact hp
+  have hsb : Spec.readTLV (V3Glue.spBlock G F p boots time) = some (48, rawBytes (V3Glue.paramItems F p boots time), []) := by
+    have := Spec.readTLV_spec G.fsi 48 (rawBytes (V3Glue.paramItems F p boots time)) [] hsi
+    simpa [V3Glue.spBlock] using this
+  have hHr := Spec.readSeq_raw (V3Glue.hdrItems G h) hH
+  have hPr := Spec.readSeq_raw (V3Glue.paramItems F p boots time) hP
+  simp only [V3Glue.hdrItems, V3Glue.paramItems, List.map_cons, List.map_nil, V3Glue.tInt, V3Glue.tStr, hflg] at hHr hPr hsb
+  simp only [Spec.readInt, hver.1, ↓reduceIte, hver.2, hsb, V3Glue.hdrItems, V3Glue.paramItems, V3Glue.tInt, V3Glue.tStr, hflg, hHr]
+  simp only [hPr, n1, n2, n3, n4, n5, ↓reduceIte]
+  simp [hb, ht]
 
 end Snmp.Props.C10
